@@ -178,7 +178,13 @@ def pChunk : TP ChunkReply := do
 def pLScript : TP (Digest × LScript) := do
   let d ← hex
   expect "head"
-  let h ← listOf (pReply nat)
+  -- HEAD `pass n`: Content-Length n; `0absent`, `0neg`, `0nan`, `0empty` are realisations of b.Total = 0 (no header, a
+  -- negative, a non-numeric, an empty value: strconv.ParseInt's result is dropped / nothing is planned for them)
+  let h ← listOf (pReply (do
+    let t ← tok
+    match t.toNat? with
+    | some n => pure n
+    | none => if t.startsWith "0" then pure 0 else failure))
   expect "direct"
   let di ← listOf (pReply pDir)
   expect "chunks"
